@@ -1304,6 +1304,9 @@ func sameShape(s *spec, t1, t2 int) bool {
 // ---- exec -------------------------------------------------------------------------------------------------------
 
 func exec(c px.Context, op string, args []sx.Sexp) core.Result {
+	if op == "tparam" {
+		return execTParam(c, args)
+	}
 	if op != "obj" || len(args) != 2 || !args[0].IsList || !args[1].IsList {
 		return core.Result{Out: "bad-op", Pred: "FAIL harness-bad-op " + op}
 	}
